@@ -34,7 +34,7 @@ def make_case(seed, tier):
     knobs.members = r.choice([3, 5, 8])
     knobs.ns_depth = r.choice([1, 2, 3]) if tier == 'quick' else r.choice([1, 2, 3, 5])
     g = gen.WildGen(seed, knobs, typedefs=True, param_use=0.3, this_use=0.08, special_names=0.25,
-                    typedef_same_ns=True, class_enum_ignore_safe=True, reopen_ns=0.35, overloads=0.2, enum_namesakes=0.25, ns_namesakes=0.3)
+                    typedef_same_ns=True, class_enum_ignore_safe=True, reopen_ns=0.35, overloads=0.2, enum_namesakes=0.25, ns_namesakes=0.3, serialize_p=0.15)
     mod = g.module()
     # options
     paths = [()]
